@@ -59,6 +59,9 @@ type c15LedgerCase struct {
 	// C17 history accounting, maintained from successful snapshots only
 	expected map[int]*big.Int
 	finalTx  map[int]bool
+	// a transaction that never passed the real validation was finalized: the C17 equations are only
+	// claimed for validated histories, so the supply oracle is off for the rest of the case
+	tainted bool
 }
 
 func c15Seed64(tag string, n int) []byte {
@@ -258,7 +261,7 @@ func (c *c15LedgerCase) buildTx(f []string) {
 		p := strings.Split(o, ":")
 		amount := integerFromBig(parseBig(p[1]))
 		switch p[0] {
-		case "s", "z":
+		case "s", "z", "x":
 			kid := c15Atoi(p[2])
 			seed, acct, idx := kid/10000, (kid/100)%100, kid%100
 			if idx != i {
@@ -267,6 +270,9 @@ func (c *c15LedgerCase) buildTx(f []string) {
 			typ := uint8(common.OutputTypeScript)
 			if p[0] == "z" {
 				typ = 0x77
+			}
+			if p[0] == "x" {
+				typ = common.OutputTypeCustodianSlashNodes
 			}
 			tx.AddOutputWithType(typ, []*common.Address{c.account(acct)}, common.NewThresholdScript(1), amount, c15Seed64("seed", seed))
 			c.keyID[*tx.Outputs[i].Keys[0]] = kid
@@ -689,6 +695,46 @@ func c15ExecLedger(prop string) func(st *State, line string) Result {
 			c.pending[id] = c.locked[id] && out == "ok"
 		case "snap":
 			c.execSnap(f, prop, &res)
+		case "nop":
+			res.Out = "skip"
+		case "admit", "admitv":
+			// lock the inputs and persist the body; `admitv` does it only for a transaction the real
+			// Validate accepted (what the kernel does), and tells the model which of the two happened
+			id := c15Atoi(f[1])
+			tx := c.txByID[id]
+			if f[0] == "admitv" && !c.validated[id] {
+				res.Out, res.LeanIn = "skip", "nop"
+				break
+			}
+			out, _, _ := Catch(func() string {
+				if err := tx.LockInputs(c.store, f[2] == "1"); err != nil {
+					return "reject"
+				}
+				c.locked[id] = c.validated[id]
+				if err := c.store.WriteTransaction(tx); err != nil {
+					return "reject"
+				}
+				return "ok"
+			})
+			res.Out, res.LeanIn = out, "admit "+f[1]+" "+f[2]
+			res.Tags = append(res.Tags, "admit:"+out)
+			c.pending[id] = c.locked[id] && out == "ok"
+		case "snapv":
+			// finalize only what the node's own validation accepted: every member is either finalized
+			// already or validated + locked + persisted on the real code
+			ok := true
+			for _, sid := range c15Split(f[7], ",") {
+				id := c15Atoi(sid)
+				if !c.finalTx[id] && !c.pending[id] {
+					ok = false
+				}
+			}
+			if !ok {
+				res.Out, res.LeanIn = "skip", "nop"
+				break
+			}
+			f[0] = "snap"
+			c.execSnap(f, prop, &res)
 		case "dump":
 			res.Out = c.dump(c.raw())
 		case "supply":
@@ -701,7 +747,7 @@ func c15ExecLedger(prop string) func(st *State, line string) Result {
 			if len(parts) > 0 {
 				res.Out = strings.Join(parts, " ")
 			}
-			if prop == "C17" {
+			if prop == "C17" && !c.tainted {
 				c.checkSupply(sup, &res)
 			}
 			res.Nontrivial = true
@@ -879,6 +925,9 @@ func (c *c15LedgerCase) execSnap(f []string, prop string, res *Result) {
 				continue
 			}
 			c.finalTx[id] = true
+			if !c.pending[id] {
+				c.tainted = true
+			}
 			tx := c.txByID[id]
 			a := c.assetID[tx.Asset]
 			if c.expected[a] == nil {
